@@ -24,6 +24,24 @@
 (* pruning above one stores the original sub-tree's hash / depth; a pruned branch   *)
 (* that is kept stays a level-1 pruned branch and every ancestor's mask has bit 0.  *)
 (*                                                                               *)
+(* MERKLE CELLS BELOW THE ROOT.  A source may also hold Merkle-proof / Merkle-     *)
+(* update cells below its root (a stored block proof, say): ExoticSourceOK.  A     *)
+(* Merkle cell hashes its children ONE LEVEL UP (Cells!CellInfo), so a position    *)
+(* with k Merkle cells strictly above it is pruned by a pruned branch of level      *)
+(* k + 1 that answers the levels 0..k with the hashes / depths of the replaced      *)
+(* sub-tree (PrunedCellK; k = 0 is the ordinary 01 01 || hash || depth).  A level-1 *)
+(* pruned branch beneath a Merkle cell answers, at the level the Merkle cell asks    *)
+(* for, with its OWN hash: the level-0 hash of the pruned tree is then no longer     *)
+(* the hash the proof carries - not a proof.  Proof(T, R, PS) is defined for these   *)
+(* sources with that level arithmetic.  A prover need not support them:            *)
+(*   CreateProof may REFUSE (error, no bag) iff a Merkle cell of the source is      *)
+(*   REACHED by the prune set: it occurs at a position no proper prefix of which    *)
+(*   is in PS (the prover would have to copy it, or prune it as a whole)            *)
+(*   (MerkleReached).  A Merkle cell strictly below a pruned position is never      *)
+(*   looked at: no refusal.  Whenever CreateProof does not refuse, the bag is       *)
+(*   judged as always: a proof that does not hash, at level zero, to the carried    *)
+(*   root hash is a violation, whatever lies beneath an exotic cell.                *)
+(*                                                                               *)
 (* PROVER AND SESSIONS.  A prover is the immutable pair (T, R).  Every Cursor()    *)
 (* (and every ProveKeyInHashmap) opens a session whose prune set is EMPTY; only   *)
 (* the Prunes made through cursors of that session count for its proof, however    *)
@@ -58,27 +76,56 @@ LevelZero(T) == \A i \in 1..Len(T) : T[i].x = Ordinary /\ T[i].m = 0
 \* a prover source: level-0 tree or partial view of one (pruned branches of level 1 with one stored hash / depth)
 IsPrunedL1(c) == c.x = Pruned /\ c.m = 1 /\ Len(c.b) = 288 /\ Len(c.r) = 0
 SourceOK(T)  == (\A i \in 1..Len(T) : (T[i].x = Ordinary /\ T[i].m \in {0, 1}) \/ IsPrunedL1(T[i])) /\ WellFormed(T)
-Partial(T)   == \E i \in 1..Len(T) : T[i].x = Pruned
+MerkleCell(c) == c.x \in {MerkleProof, MerkleUpdate}
+HasMerkle(T) == \E i \in 1..Len(T) : MerkleCell(T[i])
+\* a level-0 tree of ordinary cells with well-formed Merkle-proof / Merkle-update cells below the root (and, beneath those,
+\* whatever a well-formed Merkle cell may hold: pruned branches of the level its Merkle depth allows)
+ExoticSourceOK(T, R) == /\ \A i \in 1..Len(T) : T[i].x \in {Ordinary, Pruned, MerkleProof, MerkleUpdate}
+                        /\ T[R].x = Ordinary /\ T[R].m = 0 /\ HasMerkle(T) /\ WellFormed(T)
+\* (sources with Merkle cells are not partial views: their pruned branches lie beneath Merkle cells, the root has level 0)
+Partial(T)   == ~HasMerkle(T) /\ \E i \in 1..Len(T) : T[i].x = Pruned
+\* some Merkle cell occurs at a position no proper prefix of which is in PS
+RECURSIVE MerkleReachedAt(_, _, _, _)
+MerkleReachedAt(T, j, path, PS) ==
+  IF MerkleCell(T[j]) THEN TRUE
+  ELSE IF path \in PS THEN FALSE
+  ELSE \E k \in 1..Len(T[j].r) : MerkleReachedAt(T, T[j].r[k], Append(path, k), PS)
+MerkleReached(T, R, PS) == MerkleReachedAt(T, R, <<>>, PS)
+\* PS has a position strictly beneath a Merkle cell (only used to name findings)
+RECURSIVE MerkleAbove(_, _, _)
+MerkleAbove(T, j, p) == Len(p) > 0 /\ (MerkleCell(T[j]) \/ MerkleAbove(T, T[j].r[p[1]], Tail(p)))
+PrunesBeneathMerkle(T, R, PS) == \E p \in PS : MerkleAbove(T, R, p)
 \* the paths of PS that are not below another path of PS (the ones that become pruned-branch cells)
 Minimal(PS) == {p \in PS : ~\E q \in PS : q # p /\ PathPrefix(q, p)}
 
 \* --------------------------------------------------- (b) the proof of a prune set
-PrunedCell(info) == [b |-> BytesToBits(<<1, 1>> \o info.h[1] \o U16(info.d[1])), x |-> Pruned, m |-> 1, r |-> <<>>]
+\* the pruned branch that replaces a sub-tree of mask mS (hashes / depths: info) with k Merkle cells strictly above it:
+\* level k + 1 (bit k), and below that the significant levels <= k of the sub-tree, whose hashes / depths it stores
+PrunedCellK(mS, info, k) ==
+  LET low == ApplyM(mS, k)
+      m   == 2 ^ k + low
+      lv  == Levels(low)
+      hs  == FoldLeft(LAMBDA a, l : a \o info.h[l + 1], <<>>, lv)
+      ds  == FoldLeft(LAMBDA a, l : a \o U16(info.d[l + 1]), <<>>, lv)
+  IN [b |-> BytesToBits(<<1, m>> \o hs \o ds), x |-> Pruned, m |-> m, r |-> <<>>]
+PrunedCell(info) == PrunedCellK(0, info, 0)              \* 01 01 || Hash_0 || Depth_0
 Shift(TT, d) == [c \in 1..Len(TT) |-> [TT[c] EXCEPT !.r = [q \in 1..Len(TT[c].r) |-> TT[c].r[q] + d]]]
-\* the pruned tree below node (row j reached by `path`), as a tree-shaped table, root first
-RECURSIVE PTree(_, _, _, _, _)
-PTree(T, I, j, path, PS) ==
-  IF path \in PS THEN << PrunedCell(I[j]) >>
+\* the pruned tree below node (row j reached by `path`, md Merkle cells strictly above it), as a tree-shaped table, root
+\* first.  A position that already holds a pruned branch keeps it when pruned.
+RECURSIVE PTree(_, _, _, _, _, _)
+PTree(T, I, j, path, PS, md) ==
+  IF path \in PS THEN (IF T[j].x = Pruned THEN << T[j] >> ELSE << PrunedCellK(T[j].m, I[j], md) >>)
   ELSE LET nr   == Len(T[j].r)
            ks   == [k \in 1..nr |-> k]
-           subs == FoldLeft(LAMBDA a, k : Append(a, PTree(T, I, T[j].r[k], Append(path, k), PS)), <<>>, ks)
+           md2  == IF MerkleCell(T[j]) THEN md + 1 ELSE md
+           subs == FoldLeft(LAMBDA a, k : Append(a, PTree(T, I, T[j].r[k], Append(path, k), PS, md2)), <<>>, ks)
            offs == FoldLeft(LAMBDA a, k : Append(a, IF k = 1 THEN 1 ELSE a[k - 1] + Len(subs[k - 1])), <<>>, ks)
            tail == FoldLeft(LAMBDA a, k : a \o Shift(subs[k], offs[k]), <<>>, ks)
            km   == FoldLeft(LAMBDA a, k : Append(a, subs[k][1].m), <<>>, ks)
        IN << [b |-> T[j].b, x |-> T[j].x, m |-> DerivedMask(T[j], km), r |-> FoldLeft(LAMBDA a, k : Append(a, offs[k] + 1), <<>>, ks)] >> \o tail
 \* the cell table a conforming prover produces: row 1 is the Merkle-proof cell
 ProofI(T, I, R, PS) ==                                   \* I = InfoTable(T)
-  LET body == PTree(T, I, R, <<>>, PS)
+  LET body == PTree(T, I, R, <<>>, PS, 0)
   IN << [b |-> BytesToBits(<<3>> \o I[R].h[1] \o U16(I[R].d[1])), x |-> MerkleProof, m |-> body[1].m \div 2, r |-> <<2>>] >>
         \o Shift(body, 1)
 Proof(T, R, PS) == ProofI(T, InfoTable(T), R, PS)
@@ -103,17 +150,22 @@ RunOps(T, R, ops) == FoldLeft(LAMBDA a, o : IF a.ok /\ OpEnabled(a.s, o) THEN [o
                               [ok |-> TRUE, s |-> CInit(T, R)], ops)
 
 \* ------------------------------------------------------- reading a proof bag
-\* (proof row, original row) pairs met when the proof's tree is laid over the original along equal reference positions;
-\* descent stops at pruned-branch cells.  P is topological, so one pass over the rows in order finds them all.
+\* (proof row, original row, Merkle cells strictly above) triples met when the proof's tree is laid over the original along
+\* equal reference positions; descent stops at pruned-branch cells.  P is topological, so one pass over the rows in order
+\* finds them all.
 Pairs(P, i0, T, j0) ==
   FoldLeft(LAMBDA acc, i :
              acc \cup UNION { IF P[i].x = Pruned \/ Len(P[i].r) # Len(T[q[2]].r) THEN {}
-                              ELSE {<<P[i].r[k], T[q[2]].r[k]>> : k \in 1..Len(P[i].r)} : q \in {pp \in acc : pp[1] = i} },
-           {<<i0, j0>>}, [i \in 1..Len(P) |-> i])
-\* a pruned-branch cell standing for original row j stores j's level-0 hash and depth; any other cell is the original cell
-PairOK(P, IT, T, i, j) ==
+                              ELSE {<<P[i].r[k], T[q[2]].r[k], IF MerkleCell(T[q[2]]) THEN q[3] + 1 ELSE q[3]>> : k \in 1..Len(P[i].r)}
+                            : q \in {pp \in acc : pp[1] = i} },
+           {<<i0, j0, 0>>}, [i \in 1..Len(P) |-> i])
+\* a pruned-branch cell standing for original row j (md Merkle cells above) is the pruned branch of level md + 1 that stores
+\* j's hashes / depths of the levels 0..md (md = 0: mask 1, level-0 hash and depth) - or the very pruned branch the source has
+\* there; any other cell is the original cell
+PairOK(P, IT, T, i, j, md) ==
   IF P[i].x = Pruned
-    THEN P[i].m = 1 /\ Len(P[i].r) = 0 /\ DataBytes(P[i].b) = <<1, 1>> \o IT[j].h[1] \o U16(IT[j].d[1])
+    THEN LET pc == IF T[j].x = Pruned THEN T[j] ELSE PrunedCellK(T[j].m, IT[j], md)
+         IN P[i].m = pc.m /\ Len(P[i].r) = 0 /\ DataBytes(P[i].b) = DataBytes(pc.b)
     ELSE P[i].b = T[j].b /\ P[i].x = T[j].x /\ Len(P[i].r) = Len(T[j].r)
 \* the occurrences (paths) at which the proof has a pruned-branch cell
 RECURSIVE PrunedPaths(_, _, _, _, _)
@@ -123,7 +175,7 @@ PrunedPaths(P, i, T, j, path) ==
   ELSE UNION {PrunedPaths(P, P[i].r[k], T, T[j].r[k], Append(path, k)) : k \in 1..Len(P[i].r)}
 \* S (root RS) is a view of the tree T0 (root R0, infos I0): the same cells along equal positions, and every pruned branch
 \* of S stores the level-0 hash / depth of the node of T0 at its position
-ViewOf(S, RS, T0, I0, R0) == \A q \in Pairs(S, RS, T0, R0) : PairOK(S, I0, T0, q[1], q[2])
+ViewOf(S, RS, T0, I0, R0) == \A q \in Pairs(S, RS, T0, R0) : PairOK(S, I0, T0, q[1], q[2], q[3])
 
 \* dictionary lookup by walking edge labels along the key; total on any table
 \*   [ok |-> FALSE, why] (not a readable dictionary along this key: pruned / exotic cell, bad label, bad fork)
@@ -175,9 +227,9 @@ ProofVerdict(B, T, IT, R, n, k) ==
       psp  == PrunedPaths(P, ch, T, R, <<>>)
   IN IF SubSeq(data, 2, 33) # IT[R].h[1] THEN PV("stored-hash", {}, <<>>)
      ELSE IF <<data[34], data[35]>> # U16(IT[R].d[1]) THEN PV("stored-depth", {}, <<>>)
-     ELSE IF \E q \in prs : P[q[1]].x = Pruned /\ ~PairOK(P, IT, T, q[1], q[2]) THEN PV("pruned-cell", {}, <<>>)
+     ELSE IF \E q \in prs : P[q[1]].x = Pruned /\ ~PairOK(P, IT, T, q[1], q[2], q[3]) THEN PV("pruned-cell", {}, <<>>)
      \* a cell that is kept is the source's cell: same data bits, type, number of references
-     ELSE IF \E q \in prs : ~PairOK(P, IT, T, q[1], q[2]) THEN PV("kept-cell", {}, <<>>)
+     ELSE IF \E q \in prs : ~PairOK(P, IT, T, q[1], q[2], q[3]) THEN PV("kept-cell", {}, <<>>)
      ELSE IF \E i \in reach : P[i].x = Pruned /\ ~\E q \in prs : q[1] = i THEN PV("pruned-cell", {}, <<>>)
      ELSE IF IP[ch].h[1] # IT[R].h[1] THEN PV("level0-hash", {}, <<>>)
      ELSE IF IP[ch].d[1] # IT[R].d[1] THEN PV("level0-depth", {}, <<>>)
